@@ -42,7 +42,7 @@ CONFIGS = [
 
 def BOUNDS(tier):
     return ("%d configurations (trusted_proxy None / an address, five trusted_proxy_headers sets, trusted_proxy_count 1..4, clearing on/off) x "
-            "peer address '10.0.0.<c>' with <c> symbolic and != the trusted address x { every proxy header with a fully symbolic value of "
+            "peer address '10.0.0.<c>', '<trusted><c>' or '<c><trusted>' with <c> symbolic (never equal to the trusted address) x { every proxy header with a fully symbolic value of "
             "<= %d bytes; hostile templates with a 1-byte window at every position; all six headers present at once }" % (
                 len(CONFIGS), 3 if tier == "quick" else 4))
 
@@ -65,8 +65,16 @@ def make_inputs(job):
     cfg = dict(CONFIGS[job["cfg"]])
     cfg["count"] = 1 + eng.choose(4, "count") if cfg["trusted_proxy"] else 1
     last = SymStr.fresh(1, "peer")
-    eng.assume(z3.And(z3.UGE(last.c[0], 48), z3.ULE(last.c[0], 57), last.c[0] != 57))
-    peer = "10.0.0." + last
+    shape = eng.choose(3, "peershape")
+    if shape == 0:      # same length, differs in the last character
+        eng.assume(z3.And(z3.UGE(last.c[0], 48), z3.ULE(last.c[0], 57), last.c[0] != 57))
+        peer = "10.0.0." + last
+    elif shape == 1:    # the trusted address is a proper prefix of the peer address
+        eng.assume(z3.Or(z3.And(z3.UGE(last.c[0], 48), z3.ULE(last.c[0], 57)), last.c[0] == 37))
+        peer = TRUSTED + last
+    else:               # the trusted address is a proper suffix of the peer address
+        eng.assume(z3.And(z3.UGE(last.c[0], 49), z3.ULE(last.c[0], 57)))
+        peer = last + TRUSTED
     hdrs = []
     if job["fam"] == "SYM":
         v = SymBytes.fresh(job["n"], "v")
